@@ -16,7 +16,7 @@ func init() {
 		Decides: "eligible status table == {500,502,503,504}; the policy receives directives of the stored response and of the request; the stale-if-error " +
 			"return is unreachable under stored must-revalidate, stored unqualified no-cache, request no-cache, a non-GET method, or a negative policy answer; " +
 			"the window comparison permits only staleness strictly below the window; the return passes Age generation and the STALE status.",
-		NotDecided: "numeric staleness; which of several stale-if-error values wins; upstream behaviour.",
+		NotDecided:  "numeric staleness; which of several stale-if-error values wins; upstream behaviour.",
 		Assumptions: []string{"R-REQ, R-PURE (checked)"},
 		Rules: []Rule{
 			{ID: "C13.0", Desc: "shared premises", Run: func(c *Ctx) { ruleRREQ(c, "C13.0"); ruleRPURE(c, "C13.0") }, MinSites: 2},
@@ -25,6 +25,7 @@ func init() {
 			{ID: "C13.3", Desc: "no stale-if-error against must-revalidate / no-cache", Run: ruleC13_3, MinSites: 3},
 			{ID: "C13.4", Desc: "strict window comparison", Run: ruleC13_4, MinSites: 1},
 			{ID: "C13.5", Desc: "stale-if-error return is marked STALE with Age", Run: ruleC13_5, MinSites: 1},
+			{ID: "C13.8", Desc: "the Age emitted on the stale-if-error return includes the time since the age was computed (the failed validation attempt)", Run: func(c *Ctx) { ruleAgeEmission(c, "C13.8") }, MinSites: 1},
 			{ID: "C13.7", Desc: "the window sum (lifetime + stale-if-error) and the age sum saturate", Run: func(c *Ctx) { ruleDurationSums(c, "C13.7") }, MinSites: 2},
 			{ID: "C13.6", Desc: "otherwise the failure is returned", Run: ruleC13_6, MinSites: 2},
 		},
@@ -237,12 +238,17 @@ func ruleC13_4(c *Ctx) {
 			n++
 			op := cmp.Op
 			decided := false
+			earlyRefusal := ""
 			if refs := cmp.Referrers(); refs != nil {
 				for _, r := range *refs {
 					switch u := r.(type) {
 					case *ssa.Return:
-						// `return age < lifetime+N`: true is the permit
+						// `return age < lifetime+N`: true is the permit. Inside a loop over the directive sources this also
+						// returns the refusal of the first source and never looks at the next one
 						if len(u.Results) == 1 && u.Results[0] == ssa.Value(cmp) {
+							if leavesLoopFromBody(u.Block()) {
+								earlyRefusal = c.P.InstrPos(u)
+							}
 							decided = true
 						}
 					case *ssa.If:
@@ -278,6 +284,9 @@ func ruleC13_4(c *Ctx) {
 			}
 			where := c.P.InstrPos(cmp) + " `" + cmp.String() + "`"
 			desc := "stale-if-error permits only while staleness is strictly below the window (age < lifetime + N)"
+			if earlyRefusal != "" {
+				c.Fail("C13.4", "sie-window-every-source", "a source whose window is closed does not end the search (stored response and request may both carry stale-if-error)", earlyRefusal+": the comparison is returned from inside the loop over the sources; the first valid directive decides and a wider window on the request (or the stored response) is never consulted")
+			}
 			if op == token.LSS {
 				c.Pass("C13.4", "sie-window", desc, where)
 			} else {
@@ -358,4 +367,36 @@ func ruleC13_6(c *Ctx) {
 	} else {
 		c.Pass("C13.6", "error-returned", desc, fmt.Sprintf("%d live returns", nret))
 	}
+}
+
+// leavesLoopFromBody: b is left-of-loop code reached from inside a loop body (a `return`/`break` target inside the body),
+// as opposed to the code after the loop, which is reached from the loop head.
+func leavesLoopFromBody(b *ssa.BasicBlock) bool {
+	if blockInCycle(b) {
+		return true
+	}
+	seen := map[*ssa.BasicBlock]bool{}
+	var up func(x *ssa.BasicBlock) bool
+	up = func(x *ssa.BasicBlock) bool {
+		if seen[x] {
+			return false
+		}
+		seen[x] = true
+		for _, p := range x.Preds {
+			if blockInCycle(p) {
+				// p is a body block when another block of the same loop dominates it (the head)
+				for _, h := range p.Parent().Blocks {
+					if h != p && blockInCycle(h) && h.Dominates(p) && reachableAvoiding(p, h, nil) {
+						return true
+					}
+				}
+				continue
+			}
+			if up(p) {
+				return true
+			}
+		}
+		return false
+	}
+	return up(b)
 }
